@@ -20,7 +20,7 @@ def run(chk, facts, tier):
     chk.rule('prepare-defers', 'Prepare Write: the only attribute access is the zero-length probe; the payload is copied into the queue element returned by allocate_from_write_queue (null -> Prepare Queue Full)', floor=1)
     chk.rule('execute-frees-on-every-exit', 'handle_execute_write_request: every exit behind the PDU check releases the queue (write_queue_guard in scope or free_write_queue on the path)', floor=1)
     chk.rule('release-only-after-pdu-check', 'handle_execute_write_request: the write_queue_guard and every free_write_queue are control dependent on the passed PDU check (in_size == 2, flag 0 or 1): the queue is released on execute, cancel or disconnect only', floor=1)
-    chk.rule('single-owner', 'allocate_from_write_queue refuses when another client owns the queue; first_write_queue_element yields only to the owner; free_write_queue only for the owner', floor=3)
+    chk.rule('single-owner', 'allocate_from_write_queue refuses when another client owns the queue and claims the queue only on the path that queues an element; first_write_queue_element yields only to the owner; free_write_queue only for the owner', floor=4)
     chk.rule('release-on-disconnect', 'server::client_disconnected frees the queue and the link layer calls it on every disconnect (force_disconnect)', floor=2)
 
     chk.rule('probe-no-side-effect', 'the Prepare Write probe is distinguishable from a real write (own access type), so value handlers are not invoked and nothing changes before Execute Write', floor=1)
@@ -104,6 +104,21 @@ def run(chk, facts, tier):
         st = [s for tgt, op, val, s in stores(fn.body) if is_name(tgt, 'current_client_')]
         ok = ok and len(st) == 1
         chk.instance('single-owner', fn, 'refuse when current_client_ != nullptr && current_client_ != &client', ok, '' if ok else 'a second client can append to a queue owned by another client', key='allocate')
+        # ownership is taken only together with a queued element: no refusal after the queue was claimed
+        from .lib.paths import explore
+
+        def on_node(ts, node):
+            owned, bad = ts
+            for tgt, op, val, s2 in stores(node):
+                if s2 is node and is_name(tgt, 'current_client_'):
+                    owned = True
+            if node.k == 'ReturnStmt' and owned and ret_value(node) is not None and (cval(ret_value(node)) == 0 or ret_value(node).k == 'CXXNullPtrLiteralExpr'):
+                bad = node.l
+            return (owned, bad)
+        res = explore(fn, (False, None), on_node)
+        badl = [ts[1] for ts, tr in res if ts[1] is not None]
+        chk.instance('single-owner', fn, 'no refusal after current_client_ was claimed (%d paths)' % len(res), bool(res) and not badl,
+                     '' if res and not badl else 'a client whose request does not fit (line %s: nullptr) already owns the queue with nothing queued: every other client gets Prepare Queue Full until that client executes or disconnects' % (badl[0] if badl else '?'), key='allocate claims')
     for name in ('first_write_queue_element', 'free_write_queue'):
         for fn in variants(facts, WQ + name, chk):
             if not fn.params or not mentions(fn.body, 'current_client_'):
